@@ -277,3 +277,65 @@ Definition judge (c out : list Z) : bool :=
       | Unspecified => rejected out || ok
       end
   end.
+
+(* ---- RFC 9000 section 7.3: authenticating connection ids (component `sess`) ----
+   case = role :: retry_flag :: retry_len :: retry.. :: odcid_len :: odcid.. :: peer_len :: peer.. :: block..
+   role 0: a server receives a client's block; otherwise a client receives a server's block.
+   "An endpoint MUST treat the following as a connection error of type TRANSPORT_PARAMETER_ERROR or
+    PROTOCOL_VIOLATION: absence of initial_source_connection_id from either endpoint; absence of
+    original_destination_connection_id from the server; absence of retry_source_connection_id from the
+    server after receiving a Retry; presence of retry_source_connection_id when no Retry was received;
+    a mismatch between values received in these parameters and the value sent in the corresponding
+    Destination or Source Connection ID fields of Initial packets." *)
+Definition pad_take (n : nat) (l : list Z) : list Z := firstn n (l ++ repeat 0%Z n).
+Definition field_bytes (l : list Z) : list N * list Z :=
+  let n := N.to_nat (N.min (zN (hd 0%Z l)) 64) in
+  (map zN (pad_take n (tl l)), skipn n (tl l)).
+
+Fixpoint bytes_eqb (a b : list N) : bool :=
+  match a, b with
+  | [], [] => true
+  | x :: a', y :: b' => (x =? y) && bytes_eqb a' b'
+  | _, _ => false
+  end.
+
+Definition declared_is (id : N) (es : list (N * list N)) (v : list N) : bool :=
+  match declared id es with Some d => bytes_eqb d v | None => false end.
+
+(* does 7.3 oblige the receiver to fail the handshake? *)
+Definition auth_fails (from_server : bool) (es : list (N * list N))
+    (retry : option (list N)) (odcid peer : list N) : bool :=
+  negb (declared_is 15 es peer)
+  || (from_server &&
+      (negb (declared_is 0 es odcid)
+       || match retry with
+          | Some r => negb (declared_is 16 es r)
+          | None => present 16 es
+          end)).
+
+Definition failed_with_permitted_code (out : list Z) : bool :=
+  match out with
+  | [1%Z; code] => (code =? 8)%Z || (code =? 10)%Z    (* TRANSPORT_PARAMETER_ERROR / PROTOCOL_VIOLATION *)
+  | _ => false
+  end.
+
+Definition judge_sess (c out : list Z) : bool :=
+  let from_server := negb (hd 0%Z c =? 0)%Z in
+  let c1 := tl c in
+  let retry_flag := negb (hd 0%Z c1 =? 0)%Z in
+  let '(retry, c2) := field_bytes (tl c1) in
+  let '(odcid, c3) := field_bytes c2 in
+  let '(peer, c4) := field_bytes c3 in
+  let blk := map zN c4 in
+  match rfc_entries (S (length blk)) blk with
+  | None => failed_with_permitted_code out
+  | Some es =>
+      let continues := list_Z_eqb out [0%Z] in
+      if auth_fails from_server es (if retry_flag then Some retry else None) odcid peer
+      then failed_with_permitted_code out
+      else match entries_verdict from_server es with
+           | MustReject => failed_with_permitted_code out
+           | MustAccept => continues
+           | Unspecified => continues || failed_with_permitted_code out
+           end
+  end.
